@@ -10,11 +10,12 @@ open Nervus.GraphSpec (Graph TxOp Op Rel)
 structure SimL (s : Engine) (g : Graph) : Prop where
   lenE : s.idmap.i2e.length = g.next
   lenL : s.idmap.i2l.length = g.next
-  e2i : s.idmap.e2i = g.ext.map (fun p => (p.2, p.1))
+  e2i : ∀ x, s.idmap.lookup x = (g.ext.map (fun p => (p.2, p.1))).lookup x
   extPt : ∀ n, g.extOf n = (s.idmap.i2e[n]?).map (·.ext)
   extLt : ∀ p ∈ g.ext, p.1 < g.next
   extNZ : ∀ p ∈ g.ext, p.2 ≠ 0
   extND : (g.ext.map (·.2)).Nodup
+  extIdND : (g.ext.map (·.1)).Nodup
   labels : ∀ n lid nm, s.interner[lid]? = some nm → n < g.next → n ∉ g.dead →
     (lid ∈ (s.idmap.i2l[n]?).getD [] ↔ (n, nm) ∈ g.labels)
   labelsInt : ∀ p ∈ g.labels, p.2 ∈ s.interner
@@ -32,6 +33,7 @@ structure StagedL (s0 : Engine) (g0 : Graph) (s : Engine) (t : Txn) (g : Graph) 
   extLt : ∀ p ∈ g.ext, p.1 < g.next
   extNZ : ∀ p ∈ g.ext, p.2 ≠ 0
   extND : (g.ext.map (·.2)).Nodup
+  extIdND : (g.ext.map (·.1)).Nodup
   labels : ∀ n lid nm, s.interner[lid]? = some nm → n < g.next → n ∉ g.dead →
     ((n, nm) ∈ g.labels ↔
       (((n, nm) ∈ g0.labels ∨ (∃ x, (x, lid, n) ∈ t.created) ∨ (n, lid) ∈ t.addL) ∧ (n, lid) ∉ t.delL))
@@ -70,7 +72,7 @@ theorem StagedL.intern {s0 g0 s t g} (hst : StagedL s0 g0 s t g) (hn : s.interne
       have := name_inj _ hnd _ _ _ hx h1
       omega
   refine { next := hst.next, extEq := hst.extEq, ids := hst.ids, extPt := hst.extPt, extLt := hst.extLt,
-           extNZ := hst.extNZ, extND := hst.extND, labels := ?_,
+           extNZ := hst.extNZ, extND := hst.extND, extIdND := hst.extIdND, labels := ?_,
            labelsInt := fun p hp => hpre.subset (hst.labelsInt p hp), labelsLt := hst.labelsLt,
            addOK := fun p hp => ⟨(hst.addOK p hp).1, Nat.lt_of_lt_of_le (hst.addOK p hp).2 hlen⟩,
            delOK := fun p hp => ⟨(hst.delOK p hp).1, Nat.lt_of_lt_of_le (hst.delOK p hp).2 hlen⟩,
@@ -98,6 +100,7 @@ theorem StagedL.frame {s0 g0 s t g} (hst : StagedL s0 g0 s t g) (t' : Txn) (g' :
            ids := by rw [h1]; exact hst.ids, extPt := by intro n; rw [hext, h1]; exact hst.extPt n,
            extLt := by rw [h5, h4]; exact hst.extLt, extNZ := by rw [h5]; exact hst.extNZ,
            extND := by rw [h5]; exact hst.extND,
+           extIdND := by rw [h5]; exact hst.extIdND,
            labels := by rw [h4, h6, h7, h1, h2, h3]; exact hst.labels,
            labelsInt := by rw [h6]; exact hst.labelsInt, labelsLt := by rw [h6, h4]; exact hst.labelsLt,
            addOK := by rw [h2, h4]; exact hst.addOK, delOK := by rw [h3, h4]; exact hst.delOK,
@@ -108,7 +111,7 @@ theorem StagedL.frame {s0 g0 s t g} (hst : StagedL s0 g0 s t g) (t' : Txn) (g' :
 theorem StagedL.tombNode {s0 g0 s t g} (hst : StagedL s0 g0 s t g) {n : Nat} (hlive : n < g.next) :
     StagedL s0 g0 s (t.tombstoneNode n) (g.step (.tombNode n)) := by
   refine { next := hst.next, extEq := hst.extEq, ids := hst.ids, extPt := hst.extPt, extLt := hst.extLt,
-           extNZ := hst.extNZ, extND := hst.extND, labels := ?_, labelsInt := ?_, labelsLt := ?_,
+           extNZ := hst.extNZ, extND := hst.extND, extIdND := hst.extIdND, labels := ?_, labelsInt := ?_, labelsLt := ?_,
            addOK := hst.addOK,
            delOK := hst.delOK, createdLid := hst.createdLid, deadLt := ?_, small := hst.small }
   · intro n' lid nm h hn' hd
@@ -161,6 +164,7 @@ theorem StagedL.labelAdd {s0 g0 s t g} (hst : StagedL s0 g0 s t g) (hn : s.inter
            extPt := by intro n'; rw [hextOf]; exact hst.extPt n',
            extLt := by rw [hext, hnext]; exact hst.extLt, extNZ := by rw [hext]; exact hst.extNZ,
            extND := by rw [hext]; exact hst.extND,
+           extIdND := by rw [hext]; exact hst.extIdND,
            labels := ?_, labelsInt := ?_, labelsLt := ?_, addOK := ?_,
            delOK := by rw [hnext]; exact hst.delOK, createdLid := hst.createdLid,
            deadLt := by rw [hdead, hnext]; exact hst.deadLt, small := hst.small }
@@ -219,7 +223,7 @@ theorem StagedL.labelDel {s0 g0 s t g} (hst : StagedL s0 g0 s t g) (hn : s.inter
     (hr : s.interner[lid]? = some nm) (hlive : n < g.next) :
     StagedL s0 g0 s (t.removeNodeLabel n lid) (g.step (.labelDel n nm)) := by
   refine { next := hst.next, extEq := hst.extEq, ids := hst.ids, extPt := hst.extPt, extLt := hst.extLt,
-           extNZ := hst.extNZ, extND := hst.extND, labels := ?_, labelsInt := ?_, labelsLt := ?_,
+           extNZ := hst.extNZ, extND := hst.extND, extIdND := hst.extIdND, labels := ?_, labelsInt := ?_, labelsLt := ?_,
            addOK := hst.addOK,
            delOK := ?_, createdLid := hst.createdLid, deadLt := hst.deadLt, small := hst.small }
   · intro n' lid' nm' h' hn' hd'
